@@ -718,8 +718,8 @@ func ruleImmut(p *Prog, r *Report) {
 				}
 				ro, why := p.globalReadOnly(g)
 				switch {
-				case holdsMutable != "":
-					r.bad(rule, key, p.Pos(g.Pos()), fmt.Sprintf("package-level variable %s.%s holds the mutable helper struct %s: per-call state shared by all calls and goroutines", name, mname, holdsMutable))
+				case holdsMutable != "" && !ro:
+					r.bad(rule, key, p.Pos(g.Pos()), fmt.Sprintf("package-level variable %s.%s holds the mutable helper struct %s and is not only read after initialisation (%s): per-call state shared by all calls and goroutines", name, mname, holdsMutable, why))
 				case !ro:
 					r.bad(rule, key, p.Pos(g.Pos()), fmt.Sprintf("package-level variable %s.%s is not only read after initialisation (%s): state shared by all calls and goroutines", name, mname, why))
 				case isRefType(g.Type().(*types.Pointer).Elem()):
